@@ -1,7 +1,53 @@
 package secp256k1
 
-import "testing"
+// Schedule replay: the internal/field package is compiled from an instrumented overlay in which every
+// function appends its name to field.VTrace; the recorded sequence must be identical for all scalars != 1.
 
-func vRunCase8(t *testing.T, c vCase) string {
-	return "unknown case kind " + c.Kind
+import (
+	"math/big"
+	"strings"
+	"testing"
+
+	"github.com/bytemare/secp256k1/internal/field"
+)
+
+func vRunCase8(t *testing.T, c vCase) (msg string) {
+	switch c.Kind {
+	case "schedule":
+		ks := strings.Split(c.A, ",")
+		g := vMulPt(big.NewInt(7), vG())
+		var ref []string
+		refK := ""
+		for _, kh := range ks {
+			k := vBig(kh)
+			if k.Cmp(big.NewInt(1)) == 0 {
+				continue
+			}
+			e := vElementOf(g, big.NewInt(3))
+			s := vScalarOf(t, k)
+			field.VTrace = field.VTrace[:0]
+			field.VTraceOn = true
+			e.Multiply(s)
+			field.VTraceOn = false
+			got := append([]string(nil), field.VTrace...)
+			if ref == nil {
+				ref, refK = got, kh
+				if len(ref) == 0 {
+					return "instrumentation recorded nothing"
+				}
+				continue
+			}
+			if len(got) != len(ref) {
+				return "Multiply executes " + itoa(len(got)) + " field-level operations for k=" + kh + " but " + itoa(len(ref)) + " for k=" + refK
+			}
+			for i := range got {
+				if got[i] != ref[i] {
+					return "field-operation sequences for k=" + kh + " and k=" + refK + " differ at step " + itoa(i) + ": " + got[i] + " vs " + ref[i]
+				}
+			}
+		}
+	default:
+		return vRunCase9(t, c)
+	}
+	return ""
 }
